@@ -18,6 +18,16 @@ import (
 func (n *Nodis) Del(keys ...string) int64 {
 	var c int64 = 0
 	_ = n.exec(func(tx *Tx) error {
+		c = n.del(tx, keys...)
+		return nil
+	})
+	return c
+}
+
+// del deletes the keys within a transaction
+func (n *Nodis) del(tx *Tx, keys ...string) int64 {
+	var c int64 = 0
+	{
 		if len(keys) > 1 {
 			tx.lockKeys(keys)
 		}
@@ -34,8 +44,7 @@ func (n *Nodis) Del(keys ...string) int64 {
 			})
 			c++
 		}
-		return nil
-	})
+	}
 	return c
 }
 
